@@ -106,4 +106,55 @@ theorem anonymize_match_spec_all (cfg : IpCfg) (undo : Bool) (txt : List Char)
     have : cfg.L = 128 := by simp [IpCfg.L, h6]
     rw [this]; exact parseV6_lt txt n hn
 
+/-! ## `anonymize_ip_addr`: the whole line -/
+open Regex in
+/-- **`pattern.sub` with a memoising callback is `pattern.sub` with the pure function the callback computes**: if on every state
+that satisfies an invariant `P` the callback returns `g match`, never raises and keeps `P`, then the stateful substitution returns
+the pure substitution's result and keeps `P`. -/
+theorem subLoopM_spec (P : Cache → Prop) (r : Re) (fuel : Nat) (f : Match → Py.M (List Char)) (g : Match → List Char)
+    (hf : ∀ mt c, P c → ∃ c', f mt c = .ok (g mt, c') ∧ P c') :
+    ∀ n z acc c, P c → ∃ c', Py.subLoopM r fuel f n z acc c = .ok (subLoop r fuel g n z acc, c') ∧ P c' := by
+  intro n
+  induction n with
+  | zero => intro z acc c hc; exact ⟨c, rfl, hc⟩
+  | succ n ih =>
+    intro z acc c hc
+    unfold Py.subLoopM subLoop
+    cases hm : matchAt r fuel z with
+    | oof => exact ⟨c, rfl, hc⟩
+    | none =>
+      simp only []
+      cases hr : z.right with
+      | nil => exact ⟨c, rfl, hc⟩
+      | cons ch rest => exact ih _ _ c hc
+    | ok p =>
+      obtain ⟨z', cs⟩ := p
+      simp only [Py.mbind_apply]
+      obtain ⟨c1, h1, hc1⟩ := hf ⟨z.left.length, (z'.left.take (z'.left.length - z.left.length)).reverse, cs⟩ c hc
+      simp only [h1]
+      by_cases he : ((z'.left.take (z'.left.length - z.left.length)).reverse).isEmpty = true
+      · simp only [he, ↓reduceIte]
+        cases hr : z.right with
+        | nil => exact ⟨c1, rfl, hc1⟩
+        | cons ch rest => exact ih _ _ c1 hc1
+      · simp only [he, Bool.false_eq_true, ↓reduceIte]
+        exact ih _ _ c1 hc1
+
+/-- **`anonymize_ip_addr` as written in the source (pattern substitution with the memoising `_anonymize_match` as callback) returns
+the pure `IpText.anonIpLine`** – for every line, in both directions, for both families, on every memo that satisfies the invariant
+(every memo reachable from the constructor); it never raises and keeps the invariant. -/
+theorem anonymize_ip_addr_spec (cfg : IpCfg) (undo : Bool) (line : List Char) (c : Cache)
+    (hI : Inv cfg.h cfg.pins cfg.L cfg.B c) :
+    ∃ c', Src.anonymize_ip_addr cfg.h cfg.fam6 cfg.nets cfg.L cfg.B cfg.pattern line undo c = .ok (anonIpLine cfg undo line, c') ∧
+      Inv cfg.h cfg.pins cfg.L cfg.B c' := by
+  unfold Src.anonymize_ip_addr anonIpLine Regex.sub Py.subM
+  obtain ⟨c', h1, hI'⟩ := subLoopM_spec (Inv cfg.h cfg.pins cfg.L cfg.B) cfg.pattern (Regex.fuelFor cfg.pattern line.length)
+    (fun mt => Src.anonymize_match cfg.h cfg.fam6 cfg.nets cfg.L cfg.B mt.text undo) (fun mt => anonMatch cfg undo mt.text)
+    (by
+      intro mt c0 h0
+      obtain ⟨c1, e1, i1, _⟩ := anonymize_match_spec_all cfg undo mt.text c0 h0
+      exact ⟨c1, e1, i1⟩)
+    (line.length + 2) ⟨[], line⟩ [] c hI
+  exact ⟨c', h1, hI'⟩
+
 end Netconan.SrcTie
